@@ -134,6 +134,11 @@ def pushEntry (k : PStr) (m : KMeta) (ov : Option AVal) (q : Attrs × Nat) : Att
   | some v' => ((k, m, v') :: q.1, q.2)
   | Option.none => q
 
+/-- a dict re-processed by its own class: what `new = cls(); for k, v in d.items(): new[k] = v` holds -/
+def settleAttrs (cls : Nat) : Attrs → Attrs
+  | [] => []
+  | (k, m, v) :: r => (pushEntry k m (coerce cls k m v) (settleAttrs cls r, 0)).1
+
 /-- the attribute loop, of `Tag.__init__` (element.py:1685-1692, into a new `HTML/XMLAttributeDict`) before the repair
     and of `Tag.copy_self` (into a new dict of the original's class) after it:
     `for key, value in attrs.items(): if isinstance(value, list): value = value.__class__(value); new[key] = value`.
@@ -264,6 +269,34 @@ def copySoupImpl (fresh : TagData) (inh : Option Bool) (next : Nat) : Node → O
     | some ⟨n, top :: rest⟩ => some (collapse top rest, n)
     | _ => none
 
+/-- what a `BeautifulSoup` object holds besides being the root tag: the `TreeBuilder` (by identity), `is_xml`, the
+    `parse_only` strainer and the `element_classes` mapping (by identity; `none` = `None` resp. `{}`), and what
+    `prepare_markup` reported about the input -/
+structure SoupInfo where
+  builder : Nat
+  builderIsXml : Bool                      -- `builder.is_xml`
+  isXml : Bool                             -- `self.is_xml`
+  parseOnly : Option Nat
+  elementClasses : Option Nat
+  originalEncoding : Option PStr
+  declaredHtmlEncoding : Option PStr
+  containsReplacementCharacters : Bool
+deriving DecidableEq, Repr
+
+/-- `BeautifulSoup.copy_self` (bs4/__init__.py:492-503): `clone = type(self)("", None, self.builder)` — `__init__` with an
+    instantiated builder keeps that very object (:330-345), sets `is_xml = builder.is_xml` (:379), `parse_only = None` and
+    `element_classes = {}` (the defaults of the call), and takes `original_encoding`, `declared_html_encoding`,
+    `contains_replacement_characters` = `None, None, False` from `prepare_markup("")` (:467-476) — then
+    `clone.original_encoding = self.original_encoding`. -/
+def soupCopySelf (s : SoupInfo) : SoupInfo :=
+  { builder := s.builder, builderIsXml := s.builderIsXml, isXml := s.builderIsXml, parseOnly := none, elementClasses := none,
+    originalEncoding := s.originalEncoding, declaredHtmlEncoding := none, containsReplacementCharacters := false }
+
+/-- `__getstate__`/`__setstate__` keep the whole `__dict__`: everything but the identity of the builder (a pickled copy
+    of it, or a new instance of its class when it is not picklable), the strainer and the mapping (pickled copies) -/
+def soupPickle (fresh : Nat) (s : SoupInfo) : SoupInfo :=
+  { s with builder := fresh, parseOnly := s.parseOnly.map fun _ => fresh + 1, elementClasses := s.elementClasses.map fun _ => fresh + 2 }
+
 /-! ### spec: the obvious recursion, ids allocated in pre-order -/
 
 mutual
@@ -279,6 +312,16 @@ def copySpecL (inh : Option Bool) (next : Nat) : List Node → List Node × Nat
     let a := copySpec inh next k
     let b := copySpecL inh a.2 ks
     (a.1 :: b.1, b.2)
+end
+
+mutual
+/-- the tree with every attribute dict re-processed by its own class (the identity on every tree the public API builds) -/
+def settle : Node → Node
+  | .str i c v => .str i c v
+  | .tag i d ks => .tag i { d with attrs := settleAttrs d.dictCls d.attrs } (settleL ks)
+def settleL : List Node → List Node
+  | [] => []
+  | k :: ks => settle k :: settleL ks
 end
 
 /-! ### what a copy keeps: the tree with identities erased -/
@@ -420,6 +463,11 @@ def applyEditL (e : Edit) : List Node → List Node
   | k :: ks => applyEdit e k :: applyEditL e ks
 end
 
+/-- a history of in-place mutations, applied one after the other -/
+def applyEdits : List Edit → Node → Node
+  | [], t => t
+  | e :: es, t => applyEdits es (applyEdit e t)
+
 /-! ### `==` -/
 
 /-- the number a value is for `int.__eq__` (`bool` is a subclass of `int`: `True == 1`) -/
@@ -542,10 +590,96 @@ inductive Below : Node → Node → Prop
   | kid {i d ks k} : k ∈ ks → Below (.tag i d ks) k
   | deeper {i d ks k x} : k ∈ ks → Below k x → Below (.tag i d ks) x
 
+/-! ### pickling a document: `BeautifulSoup.__getstate__` / `__setstate__` (bs4/__init__.py:505-541)
+
+    Generic in what a tree is (`T`), in the renderer `decode` and in the parser `feed` (C05 says what their composition is):
+    what matters here is **which markup** travels in the pickle. -/
+
+/-- the part of a `BeautifulSoup` object's `__dict__` that pickling reads and writes: the tree and the `markup` attribute
+    (`None` after `__init__`, which clears it; left set by `__setstate__`, which does not) -/
+structure PDoc (T : Type) where
+  tree : T
+  markup : Option PStr
+
+/-- `__getstate__`: `d = dict(self.__dict__); d["contents"] = []; d["markup"] = self.decode()` — the markup in the pickle
+    is always the rendering of the tree as it is now -/
+def getState {T : Type} (decode : T → PStr) (d : PDoc T) : PStr := decode d.tree
+
+/-- `__setstate__`: `self.__dict__ = state; …; self.reset(); self._feed()` — the tree is rebuilt from `state["markup"]`,
+    and `self.markup` keeps that string -/
+def setState {T : Type} (feed : PStr → T) (m : PStr) : PDoc T := ⟨feed m, some m⟩
+
+/-- `pickle.loads(pickle.dumps(doc))` -/
+def pickleRoundTrip {T : Type} (decode : T → PStr) (feed : PStr → T) (d : PDoc T) : PDoc T := setState feed (getState decode d)
+
+/-- a step of a document's life: an in-place edit of its tree, or being replaced by its pickle round trip -/
+inductive PStep (T : Type) where
+  | edit (f : T → T)
+  | pickle
+
+def pRun {T : Type} (decode : T → PStr) (feed : PStr → T) : PDoc T → List (PStep T) → PDoc T
+  | d, [] => d
+  | d, .edit f :: r => pRun decode feed { d with tree := f d.tree } r
+  | d, .pickle :: r => pRun decode feed (pickleRoundTrip decode feed d) r
+
+/-- the seeded variant of `__getstate__` (`if not d.get("markup"): d["markup"] = self.decode()`): a left-over, non-empty
+    `markup` is shipped instead of the rendering -/
+def getStateStale {T : Type} (decode : T → PStr) (d : PDoc T) : PStr :=
+  match d.markup with
+  | some (c :: m) => c :: m
+  | _ => decode d.tree
+
 /-! ### `hash` -/
 
+/-- the shape as a renderer that does not depend on the order of the attribute dict sees it (the default
+    `Formatter.attributes` sorts `tag.attrs.items()`): attributes as a finite map from key text to key kind and value -/
+inductive RShape where
+  | str (cls : Nat) (val : PStr)
+  | tag (d : SData) (attrs : PStr → Option (KMeta × SVal)) (kids : List RShape)
+
+mutual
+def rshapeOf : Shape → RShape
+  | .str c v => .str c v
+  | .tag d ks => .tag { d with attrs := [] } (fun k => d.attrs.lookup k) (rshapeOfL ks)
+def rshapeOfL : List Shape → List RShape
+  | [] => []
+  | k :: ks => rshapeOf k :: rshapeOfL ks
+end
+
 /-- `Tag.__hash__`: `str(self).__hash__()` = `hash(self.decode())`, for any renderer that reads the tree through its
-    identity-free shape and any string hash -/
-def hashImpl (render : Shape → PStr) (h : PStr → Nat) (inh : Option Bool) (t : Node) : Nat := h (render (shape inh t))
+    identity-free, attribute-order-free shape and any string hash -/
+def hashImpl (render : RShape → PStr) (h : PStr → Nat) (inh : Option Bool) (t : Node) : Nat :=
+  h (render (rshapeOf (shape inh t)))
+
+/-! #### what `==` does not look at -/
+
+/-- the kind and class of an attribute value, without its content -/
+inductive VDecor where
+  | str (cls : Nat) | list (cls : Nat) | int | bool | none
+deriving DecidableEq, Repr
+
+def AVal.decor : AVal → VDecor
+  | .str c _ => .str c
+  | .list _ c _ => .list c
+  | .int _ => .int
+  | .bool _ => .bool
+  | .none => .none
+
+/-- everything of the shape that `==` ignores: string classes; per tag the prefix, namespace, dict class and settings
+    (`SData` with name and attributes blanked), and per attribute key its key kind and the kind/class of its value -/
+inductive Decor where
+  | str (cls : Nat)
+  | tag (d : SData) (attrs : PStr → Option (KMeta × VDecor)) (kids : List Decor)
+
+mutual
+def decor (inh : Option Bool) : Node → Decor
+  | .str _ c _ => .str c
+  | .tag _ d ks =>
+    .tag { shapeData d (isXml inh d) with name := [], attrs := [] }
+      (fun k => (d.attrs.lookup k).map fun e => (e.1, e.2.decor)) (decorL (isXml inh d) ks)
+def decorL (inh : Option Bool) : List Node → List Decor
+  | [] => []
+  | k :: ks => decor inh k :: decorL inh ks
+end
 
 end BS.Copy
